@@ -111,5 +111,9 @@ int main(int argc, char** argv)
         });
     };
     prop.run = runCase;
+    prop.normalize = [](EncCase& c) {
+        EncNormParams np;  // C01: no error flag, no empty payloads, message types != 0
+        normalizeEncCase(c, np);
+    };
     return pbtMain(argc, argv, prop);
 }
